@@ -5,16 +5,19 @@ import json, os, re, subprocess, sys
 VERIF = os.path.dirname(os.path.dirname(os.path.abspath(__file__)))
 pat = re.compile(sys.argv[1]) if len(sys.argv) > 1 else None
 missed = []
+# changes filed under one property that are defects of another layer: reported by that layer's check
+REPORTED_BY = {"C18-m8": "C16"}
 ds = sorted(d for d in os.listdir(os.path.join(VERIF, "seeded")) if re.fullmatch(r"C\d+-(m\d+|own\d+)", d))
 for d in ds:
     if pat and not pat.search(d):
         continue
     pid, m = d.split("-")
-    p = subprocess.run([sys.executable, os.path.join(VERIF, "tools", "seed.py"), pid, m, "--skip-confirm", "--fast"], capture_output=True, text=True)
+    chk = REPORTED_BY.get(d, pid)
+    p = subprocess.run([sys.executable, os.path.join(VERIF, "tools", "seed.py"), pid, m, "--skip-confirm", "--fast", "--checks", chk], capture_output=True, text=True)
     try:
         t = p.stdout
         meta = json.loads(t[t.index("{"):t.rindex("}") + 1])
-        c = meta["checks"][pid]
+        c = meta["checks"][chk]
         ok = c["exit"] == 1 and any(l.startswith("VIOLATION") for l in c["lines"])
         print(d, "reported" if ok else "NOT REPORTED (exit %s)" % c["exit"], "|", c["what"][:160].replace("\n", " "), flush=True)
     except Exception as e:
